@@ -32,7 +32,22 @@ func scWriteCut(r *Run) {
 	hidden := r.Intn("cfg", 3) == 0
 	srv := StartServer(r, n, ServerOpts{Hidden: hidden, HSTimeout: 3 * time.Second})
 	defer srv.Srv.Close()
-	tc := NewTClient(r, n, srv, ClientOpts{Hidden: hidden})
+	copts := ClientOpts{Hidden: hidden}
+	if r.Intn("hsbound", 3) == 0 {
+		// the handshake is bounded by an absolute deadline (net.Dialer.Deadline) instead of the relative timeout;
+		// the session outlives that instant
+		dl := time.Now().Add(1500 * time.Millisecond)
+		both := r.Intn("hsbound", 2) == 0
+		copts.Mutate = func(cfg *transport.ClientConfig) {
+			cfg.HSDeadline = dl
+			cfg.HSTimeout = 0
+			if both {
+				cfg.HSTimeout = 5 * time.Second
+			}
+		}
+		r.SetCfg("handshake-bound", "absolute deadline")
+	}
+	tc := NewTClient(r, n, srv, copts)
 	if err := tc.C.Handshake(); err != nil {
 		r.Violate("C03/nofault/handshake-failed", "honest handshake on a faithful network failed: %v", err)
 		return
